@@ -17,7 +17,7 @@ def profiles(tier):
           mkcfg("TwoLevel", N=0, passes=0, period=2, ram=1, st=1),
           mkcfg("TwoLevel", N=0, passes=0, period=3, ram=0, st=0, traj=1)]
     off = [mkcfg("Multistage", max_n=3, ram=1, disk=1), mkcfg("Mixed", max_n=3, ram=1, st=0),
-           mkcfg("HRevolve", max_n=3, ram=1, disk=1)]
+           mkcfg("HRevolve", max_n=3, ram=1, disk=1), mkcfg("Mixed", max_n=1, ram=0, st=1)]
     if tier != "quick":
         off += [mkcfg("Revolve", max_n=2, ram=1), mkcfg("DiskRevolve", max_n=4, ram=1),
                 mkcfg("PeriodicDiskRevolve", max_n=3, ram=2), mkcfg("Multistage", max_n=1, ram=0, disk=0)]
@@ -48,7 +48,7 @@ def to_calls(h):
 def tail(h, tail_next):
     """A fixed continuation, a function of the ACCEPTED calls only (so a history and its
     sibling get the same one): a few next(), a finalize at a small step, then next()."""
-    return [("next",)] * 2 + [("fin", 2)] + [("next",)] * tail_next
+    return [("next",)] * 2 + [("fin", 2)] + [("next",)] * tail_next + [("fin", 1), ("fin", 3)]
 
 
 def replay_all(profs, hists, tail_next):
@@ -70,9 +70,67 @@ def replay_all(profs, hists, tail_next):
         if t["ctor"] or t["hung"]:
             continue
         calls = c["calls"]
-        evs = t["ev"][1:]          # event 1 is the initial observation
+        evs = t["ev"][2:]          # events 1 and 2 are the initial observations
         keep = [call for call, e in zip(calls, evs) if not (e[0] == 1 and e[1] != 0)]
         if len(keep) != len(calls):
+            s = dict(c)
+            s["calls"] = keep
+            sib_cfgs.append(s)
+            sib_pos.append(len(out) - 1)
+            out.append(None)
+    sibs = record.record_many(sib_cfgs)
+    for pos, st in zip(sib_pos, sibs):
+        if "machinery" in st:
+            raise fw.Machinery(str(st))
+        out[pos]["sib"] = 1
+        out[pos + 1] = st
+    return out
+
+
+def probe_profiles(tier):
+    p = [mkcfg("TwoLevel", N=5, passes=2, period=2, ram=1, st=0), mkcfg("TwoLevel", N=3, passes=2, period=3, ram=1, st=0),
+         mkcfg("TwoLevel", N=7, passes=2, period=3, ram=1, st=1), mkcfg("TwoLevel", N=7, passes=2, period=4, ram=2, st=0, traj=1),
+         mkcfg("SingleMemory", N=2, passes=2), mkcfg("SingleDiskCopy", N=3, passes=2), mkcfg("SingleDiskMove", N=3, passes=1),
+         mkcfg("None", N=2, passes=0), mkcfg("Multistage", max_n=5, ram=1, disk=1), mkcfg("Mixed", max_n=5, ram=2, st=0),
+         mkcfg("Mixed", max_n=1, ram=0, st=1), mkcfg("Multistage", max_n=1, ram=0, disk=0), mkcfg("HRevolve", max_n=4, ram=1, disk=1),
+         mkcfg("Revolve", max_n=1, ram=1), mkcfg("DiskRevolve", max_n=4, ram=1), mkcfg("PeriodicDiskRevolve", max_n=5, ram=1)]
+    if tier != "quick":
+        p += [mkcfg("TwoLevel", N=11, passes=3, period=5, ram=2, st=0), mkcfg("TwoLevel", N=8, passes=2, period=4, ram=3, st=1),
+              mkcfg("Multistage", max_n=9, ram=2, disk=1, traj=1), mkcfg("Mixed", max_n=9, ram=3, st=1),
+              mkcfg("HRevolve", max_n=7, ram=1, disk=2, uf=1, ub=1, wd=0, rd=2)]
+    return p
+
+
+def probe_traces(tier):
+    """The canonical call sequence of each profile with ONE finalize(k) probe inserted at every
+    position (k = the true step count, and k = 1): finalize must be accepted exactly when the
+    forward stands at max_n - at EVERY point of the stream - and must never change anything."""
+    cfgs = []
+    for p in probe_profiles(tier):
+        base = record.canonical(p)
+        calls = []
+        for e in base["ev"][2:]:
+            calls.append(("next",) if e[0] == 0 else ("fin", p["N"]))
+        for i in range(len(calls) + 1):
+            for k in sorted({p["N"], 1}):
+                c = dict(p)
+                c["calls"] = calls[:i] + [("fin", k)] + calls[i:]
+                cfgs.append(c)
+    return cfgs
+
+
+def replay_cfgs(cfgs):
+    traces = record.record_many(cfgs)
+    out, sib_cfgs, sib_pos = [], [], []
+    for c, t in zip(cfgs, traces):
+        if "machinery" in t:
+            raise fw.Machinery(str(t))
+        out.append(t)
+        if t["ctor"] or t["hung"]:
+            continue
+        evs = t["ev"][2:]
+        keep = [call for call, e in zip(c["calls"], evs) if not (e[0] == 1 and e[1] != 0)]
+        if len(keep) != len(c["calls"]):
             s = dict(c)
             s["calls"] = keep
             sib_cfgs.append(s)
@@ -95,7 +153,8 @@ def check(ctx, pid="C10"):
     profs = profiles(ctx.tier)
     hists = histories(ctx, K, D)
     sim = histories(ctx, K + 2, 8, simulate=40 if q else 500, seed=ctx.seed)
-    traces = replay_all(profs, hists, 4) + replay_all(profs, sorted(set(sim)), 6)
+    probes = replay_cfgs(probe_traces(ctx.tier))
+    traces = replay_all(profs, hists, 4) + replay_all(profs, sorted(set(sim)), 6) + probes
     verdicts = fw.validate(ctx, traces, module="TraceClient")
     viols = []
     fin = Counter()
@@ -114,6 +173,7 @@ def check(ctx, pid="C10"):
         "histories_exhaustive": len(hists), "alphabet": f"next, finalize(-1..{K})", "depth": D,
         "histories_simulated": len(set(sim)), "simulated_depth": 8, "profiles": len(profs),
         "sibling_traces": sum(1 for t in traces if t.get("sib")),
+        "probe_traces": len(probes),
         "design_level_generator_models": gen,
         "finalize_calls_by_outcome": {"ok": fin[0], "ValueError": fin[1], "RuntimeError": fin[2],
                                       "other": fin[3]},
